@@ -621,6 +621,86 @@ func enumerate(maxLen int) [][]int {
 	return out
 }
 
+// applyOp builds the transaction of operation op (source index i) for a block at the given height and
+// updates the reference tally.
+func (w *cWorld) applyOp(m *cModel, op, i int, height uint64) []*types.Tx {
+	var txs []*types.Tx
+	switch {
+	case op < nVoteKey:
+		pub := w.voteKeys[op].XPub()
+		src := w.P.U[i]
+		tx := labnet.Tx([]labnet.Out{src}, []*types.TxOutput{
+			types.NewVoteOutput(*consensus.BTMAssetID, cVoteAmts[op], labnet.Prog(byte(0x30+i)), pub[:], nil),
+			types.NewOriginalTxOutput(*consensus.BTMAssetID, src.Amount()-cVoteAmts[op]-labnet.Fee, labnet.Prog(byte(0x40+i)), nil)})
+		txs = append(txs, tx)
+		m.outs[op] = append(m.outs[op], cOut{labnet.Out{Tx: tx, Idx: 0}, height})
+		m.tally[hex.EncodeToString(pub[:])] += cVoteAmts[op]
+	case op < 2*nVoteKey:
+		k := op - nVoteKey
+		pub := w.voteKeys[k].XPub()
+		vo := m.outs[k][0]
+		m.outs[k] = m.outs[k][1:]
+		txs = append(txs, labnet.Pay([]labnet.Out{vo.out}, labnet.Prog(byte(0x50+i))))
+		key := hex.EncodeToString(pub[:])
+		m.tally[key] -= cVoteAmts[k]
+		if m.tally[key] == 0 {
+			delete(m.tally, key)
+		}
+	}
+	return txs
+}
+
+func (m *cModel) clone() *cModel {
+	n := &cModel{tally: map[string]uint64{}}
+	for k, v := range m.tally {
+		n.tally[k] = v
+	}
+	for k := range m.outs {
+		n.outs[k] = append([]cOut(nil), m.outs[k]...)
+	}
+	return n
+}
+
+// tallyAfter is the reference tally after one more operation.
+func (w *cWorld) tallyAfter(m *cModel, op int) []kv {
+	n := m.clone()
+	switch {
+	case op < nVoteKey:
+		pub := w.voteKeys[op].XPub()
+		n.tally[hex.EncodeToString(pub[:])] += cVoteAmts[op]
+	case op < 2*nVoteKey:
+		k := op - nVoteKey
+		pub := w.voteKeys[k].XPub()
+		key := hex.EncodeToString(pub[:])
+		n.tally[key] -= cVoteAmts[k]
+		if n.tally[key] == 0 {
+			delete(n.tally, key)
+		}
+	}
+	return n.table()
+}
+
+// nextEpochOps picks the operations of the two sibling blocks that open the next epoch: in a fixed order
+// of preference, enabled operations that change the reference validator list, then the other enabled ones
+// (the three votes are always enabled).
+func (w *cWorld) nextEpochOps(m *cModel, height, min uint64) (a, b int) {
+	before, _ := refValidators(m.table(), min, w.fed)
+	var changing, others []int
+	for _, op := range []int{2, 1, 0, nVoteKey, nVoteKey + 1, nVoteKey + 2} {
+		if !m.enabled(op, height) {
+			continue
+		}
+		after, _ := refValidators(w.tallyAfter(m, op), min, w.fed)
+		if strings.Join(after, ",") != strings.Join(before, ",") {
+			changing = append(changing, op)
+		} else {
+			others = append(others, op)
+		}
+	}
+	all := append(changing, others...)
+	return all[0], all[1]
+}
+
 func runC(h []int, extra json.RawMessage) (out xplore.Out) {
 	w := buildC()
 	var variant int
@@ -672,29 +752,7 @@ func runC(h []int, extra json.RawMessage) (out xplore.Out) {
 		if !m.enabled(op, height) {
 			return xplore.Out{Viols: []xplore.Viol{{Key: "infra-disabled-op", What: fmt.Sprint(describeC(h))}}}
 		}
-		var txs []*types.Tx
-		switch {
-		case op < nVoteKey:
-			pub := w.voteKeys[op].XPub()
-			src := w.P.U[i]
-			tx := labnet.Tx([]labnet.Out{src}, []*types.TxOutput{
-				types.NewVoteOutput(*consensus.BTMAssetID, cVoteAmts[op], labnet.Prog(byte(0x30+i)), pub[:], nil),
-				types.NewOriginalTxOutput(*consensus.BTMAssetID, src.Amount()-cVoteAmts[op]-labnet.Fee, labnet.Prog(byte(0x40+i)), nil)})
-			txs = append(txs, tx)
-			m.outs[op] = append(m.outs[op], cOut{labnet.Out{Tx: tx, Idx: 0}, height})
-			m.tally[hex.EncodeToString(pub[:])] += cVoteAmts[op]
-		case op < 2*nVoteKey:
-			k := op - nVoteKey
-			pub := w.voteKeys[k].XPub()
-			vo := m.outs[k][0]
-			m.outs[k] = m.outs[k][1:]
-			txs = append(txs, labnet.Pay([]labnet.Out{vo.out}, labnet.Prog(byte(0x50+i))))
-			key := hex.EncodeToString(pub[:])
-			m.tally[key] -= cVoteAmts[k]
-			if m.tally[key] == 0 {
-				delete(m.tally, key)
-			}
-		}
+		txs := w.applyOp(m, op, i, height)
 		ts := tip.Block.Timestamp + interval
 		signer, want := proposerKey(tip.Height, ts)
 		b := w.net.NewBlock(tip, labnet.BlockOpt{Txs: txs, Signer: &signer})
@@ -769,11 +827,116 @@ func runC(h []int, extra json.RawMessage) (out xplore.Out) {
 			}
 		}
 	}
+	// ---- the next epoch opens with two sibling blocks that carry different operations; the set that is
+	// read for this epoch (tally at boundary T) and the one before it must not move. Observed (i) through
+	// who may cast a verification for checkpoint T (decided from the in-memory parent checkpoint) and
+	// (ii) after the accepted verifications made the node save checkpoint T again, through the schedule
+	// and the accepted proposer signatures of the epoch that reads checkpoint T.
+	opA, opB := w.nextEpochOps(m, tip.Height+1, cMin)
+	var sibs []*labnet.B
+	for si, op := range []int{opA, opB} {
+		ts := tip.Block.Timestamp + interval
+		signer, want := proposerKey(tip.Height, ts)
+		b := w.net.NewBlock(tip, labnet.BlockOpt{Txs: w.applyOp(m.clone(), op, 4+si, tip.Height+1), Signer: &signer, Tag: byte(si)})
+		cp := *b.Block
+		cp.SupLinks = nil
+		orphan, err := nd.Chain.ProcessBlock(&cp)
+		c.evals++
+		if err != nil || orphan {
+			c.viol("scheduled-proposer-signature-rejected:next-epoch-block", fmt.Sprintf("%s: block %d (%s) signed by the reference proposer %s rejected: orphan=%v err=%v", tag, b.Height, opName(op), short(want), orphan, err))
+			out.Digest = "rejected-next/" + fmt.Sprint(h)
+			out.Outcome = "next-epoch-block-rejected"
+			return
+		}
+		sibs = append(sibs, b)
+	}
+	tag2 := fmt.Sprintf("%s, then siblings %d:%s and %d':%s", tag, tip.Height+1, opName(opA), tip.Height+1, opName(opB))
+	// (i) verifications genesis -> checkpoint T by every known key
+	voters, _ := refValidators(prev.table, cMin, w.fed)
+	isVoter := map[string]bool{}
+	for _, k := range voters {
+		isVoter[k] = true
+	}
+	genesis := w.net.Gen.Hash()
+	votesAccepted := 0
+	for _, key := range w.allKeys {
+		pub := key.XPub().String()
+		err := nd.Chain.ProcessBlockVerification(labnet.VoteMsg(key, genesis, tipHash))
+		c.evals++
+		switch {
+		case isVoter[pub] && err != nil:
+			c.viol("verification-by-validator-refused", fmt.Sprintf("%s: verification genesis->block %d by %s refused (%v); the reference validators of that epoch are %s", tag2, tip.Height, short(pub), err, fmtKeys(voters)))
+		case !isVoter[pub] && err == nil:
+			c.viol("verification-by-non-validator-accepted", fmt.Sprintf("%s: verification genesis->block %d by %s accepted; the reference validators of that epoch are %s", tag2, tip.Height, short(pub), fmtKeys(voters)))
+		}
+		if err == nil {
+			votesAccepted++
+		}
+	}
+	recorded := -1
+	for _, n := range nd.Chain.VerifCasper().VerifTree() {
+		if n.Hash == tipHash {
+			recorded = len(n.Links[genesis])
+		}
+	}
+	c.evals++
+	if recorded != votesAccepted {
+		c.viol("accepted-verification-not-recorded", fmt.Sprintf("%s: %d verifications accepted, %d signatures on the link genesis->block %d in the checkpoint tree", tag2, votesAccepted, recorded, tip.Height))
+	}
+	// (ii) the epoch that reads checkpoint T, after the checkpoint was saved again
+	for si, sb := range sibs {
+		sh := sb.Hash()
+		stag := fmt.Sprintf("%s; child of sibling %d", tag2, si)
+		evalSchedule(c, "after-checkpoint-resave:", stag, func(t uint64) *state.Validator {
+			v, err := nd.Chain.GetValidator(&sh, t)
+			if err != nil {
+				return nil
+			}
+			return v
+		}, ref, cur.ts, 1)
+		c.evals++
+		all, err := nd.Chain.AllValidators(&sh)
+		var ga, ra []string
+		for _, v := range all {
+			ga = append(ga, fmt.Sprintf("%s=%d", v.PubKey, v.VoteNum))
+		}
+		for _, e := range refRank(cur.table, cMin) {
+			ra = append(ra, fmt.Sprintf("%s=%d", e.Key, e.Votes))
+		}
+		if err != nil || strings.Join(ga, ",") != strings.Join(ra, ",") {
+			c.viol("all-validators-differ:after-checkpoint-resave", fmt.Sprintf("%s: Chain.AllValidators = %v (err %v), reference ranking at boundary %d %v", stag, ga, err, tip.Height, ra))
+		}
+		for s := 1; s <= len(ref); s++ {
+			ts := sb.Block.Timestamp + uint64(s)*interval
+			want := ref[refSlot(cur.ts+interval, ts, interval, len(ref))]
+			for ci, cand := range w.allKeys {
+				cand := cand
+				b := w.net.NewBlock(sb, labnet.BlockOpt{Slot: s, Tag: byte(s*8 + ci + 1), Signer: &cand, SkipCP: true})
+				_, err := nd.Chain.ProcessBlock(b.Block)
+				c.evals++
+				isWant := cand.XPub().String() == want
+				switch {
+				case isWant && err != nil:
+					c.viol("after-checkpoint-resave:scheduled-proposer-signature-rejected", fmt.Sprintf("%s: block %d in slot %d signed by the reference proposer %s rejected: %v", stag, b.Height, s, short(want), err))
+				case !isWant && err == nil:
+					c.viol("after-checkpoint-resave:unscheduled-proposer-signature-accepted", fmt.Sprintf("%s: block %d in slot %d signed by %s accepted, the reference proposer is %s", stag, b.Height, s, short(cand.XPub().String()), short(want)))
+				case isWant:
+					accepted++
+				default:
+					rejected++
+				}
+			}
+		}
+	}
 	oc, _ := outcomeOf(cur.table, cMin)
 	if fallback {
 		oc = "nobody-qualifies->federation"
 	}
-	out.Outcome = fmt.Sprintf("c:min=%d:%s n=%d accepted=%d rejected=%d", cMin/100000000, oc, len(ref), accepted, rejected)
+	chg := "next-epoch-ops-change-the-list"
+	if la, _ := refValidators(w.tallyAfter(m, opA), cMin, w.fed); strings.Join(la, ",") == strings.Join(ref, ",") {
+		chg = "next-epoch-ops-keep-the-list"
+	}
+	out.Outcome = fmt.Sprintf("c:min=%d:%s n=%d voters=%d %s accepted=%d rejected=%d", cMin/100000000, oc, len(ref), votesAccepted, chg, accepted, rejected)
 	out.Digest = fmt.Sprintf("min%d h%d cur%s prev%s", cMin, tip.Height, fmtTable(cur.table), fmtTable(prev.table))
 	return
 }
